@@ -223,6 +223,11 @@ func (r *runner) classify(sealed map[uint32]mBlk) (string, string) {
 	if len(nw.p.Byz) == 0 {
 		unlisted = "safety:honest-only-disagreement"
 	}
+	if len(r.twoCommits) > 0 {
+		// not the documented double vote (proposal / endorsement / commitment for different proposals,
+		// each kind once) and not the count-based empty flag: a node committed twice
+		return "safety:honest-two-commits", r.twoCommits[0]
+	}
 	var nodes []uint32
 	for _, idx := range nw.p.Peers {
 		if _, ok := sealed[idx]; ok {
@@ -291,6 +296,7 @@ type runner struct {
 	sealedAt  map[uint32]mBlk
 	evs       []Event
 	localFail []string
+	twoCommits []string
 }
 
 func newRunner(w *world, p Params) (*runner, error) {
@@ -304,6 +310,14 @@ func newRunner(w *world, p Params) (*runner, error) {
 // step applies one event with the bookkeeping the checks need.
 func (r *runner) step(e Event) bool {
 	nw := r.nw
+	if e.Kind == "late" && e.Late == nil { // generated: the decision the node's timer loop made at its last peek
+		in := nw.intent[e.Node]
+		if in == nil {
+			return false
+		}
+		l := *in
+		e.Late = &l
+	}
 	if e.Kind == "proc" && nw.honest(e.Node) {
 		nd := nw.nodes[e.Node]
 		if q, err := nd.Queue(); err == nil && len(q) > 0 && !nd.Marks().Sealed {
@@ -316,7 +330,7 @@ func (r *runner) step(e Event) bool {
 	if ok {
 		r.evs = append(r.evs, e)
 	}
-	if ok && e.Kind != "byz" {
+	if ok && e.Kind != "byz" && e.Kind != "peek" {
 		// local rule: a seal never changes
 		if _, sb := nw.marksTerm(nw.nodes[e.Node]); sb != nil {
 			if old, had := r.sealedAt[e.Node]; had && old != *sb {
@@ -354,7 +368,7 @@ func (r *runner) localRules() {
 			}
 		}
 		if len(commits) > 1 {
-			r.localFail = append(r.localFail, fmt.Sprintf("node %d sent %d different commitments", idx, len(commits)))
+			r.twoCommits = append(r.twoCommits, fmt.Sprintf("honest node %d signed %d different commitments at one height", idx, len(commits)))
 		}
 		if len(endNE) > 1 {
 			r.localFail = append(r.localFail, fmt.Sprintf("node %d sent %d different non-empty endorsements", idx, len(endNE)))
@@ -415,6 +429,7 @@ func (r *runner) finish(c *hx.Ctx, label string, sample bool) {
 	}
 
 	// ORACLE: agreement of the sealed blocks of honest nodes
+	r.localRules()
 	sealed := nw.sealedBlocks()
 	c.Count(fmt.Sprintf("sealed-nodes:%d", len(sealed)))
 	distinct := map[mBlk]bool{}
@@ -431,8 +446,11 @@ func (r *runner) finish(c *hx.Ctx, label string, sample bool) {
 	} else if len(sealed) > 1 {
 		c.Count("agreement:several-sealed")
 	}
-	// ORACLE: local rules
-	r.localRules()
+	// ORACLE: an honest node never sends two commit messages with different hashes for one height
+	for _, f := range r.twoCommits {
+		c.Count("honest-two-commits")
+		c.Fail("safety:honest-two-commits", "an honest node signed and sent two different commitments at one height", sched, f, "one commitment per node and height")
+	}
 	for _, f := range r.localFail {
 		c.Count("local-rule-broken")
 		c.Fail("local-rule:"+strings.Fields(f)[2], "a node broke a per-height rule (one commitment, one endorsement per flag, single seal)", sched, f, "none")
@@ -548,6 +566,10 @@ func gccProbes(c *hx.Ctx, count int) {
 }
 
 func runSchedule(c *hx.Ctx, w *world, s *Schedule, sample bool) {
+	if len(s.Marks) > 0 {
+		runMarks(c, w, s.Marks, s.Label)
+		return
+	}
 	r, err := newRunner(w, s.Params)
 	if err != nil {
 		c.Note("cannot build network: " + err.Error())
@@ -590,7 +612,8 @@ func Run(c *hx.Ctx) {
 		runSchedule(c, w, s, true)
 	}
 	gccProbes(c, c.N(150, 1500))
-	for k := 1; k <= 4; k++ {
+	marksCases(c, w)
+	for k := 1; k <= 5; k++ {
 		s, err := probe(w, k)
 		if err != nil {
 			c.Note("probe: " + err.Error())
